@@ -1,7 +1,8 @@
-// Further streams (added per property).
-pub fn oneshot(_sub: &str, _rest: &[String]) -> Option<String> {
-    None
+// Stream modules src/s_*.rs are registered automatically by build.rs.
+include!(concat!(env!("OUT_DIR"), "/mods.rs"));
+pub fn oneshot(sub: &str, rest: &[String]) -> Option<String> {
+    auto_oneshot(sub, rest)
 }
-pub fn dispatch(_sub: &str, _rest: &[String], _line: &str) -> Option<String> {
-    None
+pub fn dispatch(sub: &str, rest: &[String], line: &str) -> Option<String> {
+    auto_dispatch(sub, rest, line)
 }
